@@ -39,7 +39,7 @@ def alligator (jaw teeth lip : Nat) : Sig α :=
     else if Arith.lt lip teeth && Arith.lt lip jaw then sell else hold) j t l)
 
 def apoS (fast slow : Nat) : Sig α :=
-  let a := apo fast slow sClose
+  let a := apo fast slow two two sClose
   shift slow hold (zip crossRule (lag 1 a) (skip 1 a))
 
 def aroonS (p : Nat) : Sig α :=
